@@ -25,3 +25,143 @@ class get_threshold:
                             and (self.m + 1) * result > total_ballot_wt and result >= 1)
                 and implies(self.threshold == 0 and self.quota == "hare",
                             result == floor(div(total_ballot_wt, self.m))))
+
+from specs.stv import *
+from specs.transfers import *
+
+STV_FIELDS = dict(m=Int, threshold=Int, simultaneous=Bool, tiebreak=Opt(Str), transfer=Fn, quota=Str, _profile=Profile,
+                  election_states=Seq(StateRef, "list"), score_function=Fn, sort_high_low=Bool)
+
+
+@contract(STV_PY, "STV._simultaneous_elect_step", props=(), assumed=True)
+class sim_step:
+    """ASSUMED (its body -- slice stores into a pre-sized list, iteration over a set difference -- is audited round by round
+    in the bounded tier): the results are named by opaque functions of (profile, previous state, threshold, transfer)"""
+    params = dict(self=Obj("STV", STV_FIELDS), profile=Profile, prev_state=StateRef)
+    returns = Tup(Seq(CSet), Profile)
+    trusted = ("assumed contract: STV._simultaneous_elect_step (results named by opaque spec functions; audited by bounded/C02)",)
+
+    def ensures(self, profile, prev_state, result):
+        return (result[0] == sim_elected(profile, prev_state, self.threshold)
+                and result[1] == sim_profile(profile, prev_state, self.threshold, self.transfer))
+
+
+@contract(STV_PY, "STV._single_elect_step", props=(), assumed=True)
+class single_step:
+    params = dict(self=Obj("STV", STV_FIELDS), profile=Profile, prev_state=StateRef)
+    returns = Tup(Seq(CSet), TBDictS, Profile)
+    trusted = ("assumed contract: STV._single_elect_step (results named by opaque spec functions; audited by bounded/C02)",)
+
+    def raises_ValueError(self, profile, prev_state):
+        return len(prev_state.remaining[0]) > 1 and self.tiebreak is None
+
+    def ensures(self, profile, prev_state, result):
+        return (result[0] == one_elected(profile, prev_state, self.tiebreak)
+                and result[2] == one_profile(profile, prev_state, self.threshold, self.transfer, self.tiebreak))
+
+
+@contract("utils.py", "remove_cand", props=(), assumed=True, when=("Str", "Profile"))
+class remove_cand_str_profile:
+    params = dict(removed=Str, profile_or_ballots=Profile, condense=Bool, leave_zero_weight_ballots=Bool)
+    returns = Profile
+    trusted = ("assumed contract: remove_cand(candidate, profile) (result named by the opaque spec function `removed`; audited by bounded/C12)",)
+
+    def result(removed, profile_or_ballots):
+        return removed_profile(profile_or_ballots, removed)
+
+
+@contract("utils.py", "first_place_votes", props=(), assumed=True)
+class fpv_assumed:
+    params = dict(profile=Profile, to_float=Bool)
+    returns = Dict(Real)
+    trusted = ("assumed contract: first_place_votes (result named by the opaque spec function fpv_of; its definition is C04's subject)",)
+
+    def result(profile):
+        return fpv_of(profile)
+
+
+@contract("utils.py", "score_dict_to_ranking", props=(), assumed=True)
+class sdr_assumed:
+    params = dict(score_dict=Dict(Real), sort_high_low=Bool)
+    returns = Seq(CSet)
+    trusted = ("assumed contract: score_dict_to_ranking (opaque ranking_of; sorted() / dict-of-lists are outside the subset; audited by bounded/C04)",)
+
+    def result(score_dict):
+        return ranking_of(score_dict)
+
+
+@contract(STV_PY, "STV._run_step", props=("C02", "C01", "C10"), unfold=3)
+class stv_run_step:
+    """One round of the count is one of three legal steps, chosen by the recorded tallies of the previous round:
+    (A) some tally >= threshold: an election round (no one eliminated; who is elected and what is transferred is the elect
+        step's contract, simultaneous or one-by-one as configured);
+    (B) otherwise, candidates left == seats left: all remaining candidates are elected, the profile is emptied;
+    (C) otherwise exactly one candidate of the lowest-tally group prev.remaining[-1] is eliminated; if that group is tied, the
+        tie is broken by tiebreak_set(group, initial profile, "first_place") (never by the user's tiebreak option), the
+        resolution is recorded and its LAST member is the one eliminated; the ballots move on through remove_cand at full weight.
+    With store_states the appended state carries round number + 1, these elected/eliminated/tiebreak records, the first-place
+    tallies of the returned profile and the tally order; without it nothing is stored."""
+    params = dict(self=Obj("STV", STV_FIELDS), profile=Profile, prev_state=StateRef, store_states=Bool)
+    returns = Profile
+
+    def requires(self, profile, prev_state, store_states):
+        return (self.score_function is first_place_votes and len(self.election_states) >= 1
+                and 0 <= prev_state.round_number and prev_state.round_number < len(self.election_states)
+                and len(prev_state.remaining) >= 1
+                and implies(not (len([c for c in prev_state.scores if prev_state.scores[c] >= self.threshold]) > 0)
+                            and not (len(profile.candidates) == self.m - count(
+                                cat_elected(self.election_states, prev_state.round_number + 1),
+                                len(cat_elected(self.election_states, prev_state.round_number + 1)))),
+                            len(prev_state.remaining[-1]) >= 1))
+
+    def raises_ValueError(self, profile, prev_state, store_states):
+        return (len([c for c in prev_state.scores if prev_state.scores[c] >= self.threshold]) > 0 and not self.simultaneous
+                and len(prev_state.remaining[0]) > 1 and self.tiebreak is None)
+
+    def ensures(self, old_self, profile, prev_state, store_states, result):
+        return (implies(not store_states, self.election_states == old_self.election_states)
+                and implies(store_states, len(self.election_states) == len(old_self.election_states) + 1
+                            and self.election_states[:len(old_self.election_states)] == old_self.election_states
+                            and self.election_states[-1].round_number == prev_state.round_number + 1
+                            and self.election_states[-1].scores == fpv_of(result)
+                            and self.election_states[-1].remaining == ranking_of(fpv_of(result)))
+                # (A) election round
+                and implies(len([c for c in prev_state.scores if prev_state.scores[c] >= old_self.threshold]) > 0,
+                            implies(old_self.simultaneous, result == sim_profile(profile, prev_state, old_self.threshold, old_self.transfer))
+                            and implies(not old_self.simultaneous,
+                                        result == one_profile(profile, prev_state, old_self.threshold, old_self.transfer, old_self.tiebreak))
+                            and implies(store_states, self.election_states[-1].eliminated == (frozenset(),)
+                                        and implies(old_self.simultaneous,
+                                                    self.election_states[-1].elected == sim_elected(profile, prev_state, old_self.threshold)
+                                                    and not self.election_states[-1].tiebreaks)
+                                        and implies(not old_self.simultaneous,
+                                                    self.election_states[-1].elected == one_elected(profile, prev_state, old_self.tiebreak))))
+                # (B) default election of everyone left
+                and implies(not (len([c for c in prev_state.scores if prev_state.scores[c] >= old_self.threshold]) > 0)
+                            and len(profile.candidates) == old_self.m - count(
+                                cat_elected(old_self.election_states, prev_state.round_number + 1),
+                                len(cat_elected(old_self.election_states, prev_state.round_number + 1))),
+                            len(result.ballots) == 0 and len(result.candidates) == 0
+                            and implies(store_states, self.election_states[-1].elected == prev_state.remaining
+                                        and self.election_states[-1].eliminated == (frozenset(),)
+                                        and not self.election_states[-1].tiebreaks))
+                # (C) elimination of exactly one lowest-tally candidate
+                and implies(not (len([c for c in prev_state.scores if prev_state.scores[c] >= old_self.threshold]) > 0)
+                            and not (len(profile.candidates) == old_self.m - count(
+                                cat_elected(old_self.election_states, prev_state.round_number + 1),
+                                len(cat_elected(old_self.election_states, prev_state.round_number + 1)))),
+                            implies(store_states,
+                                    self.election_states[-1].elected == (frozenset(),)
+                                    and len(self.election_states[-1].eliminated) == 1
+                                    and len(self.election_states[-1].eliminated[0]) == 1
+                                    and self.election_states[-1].eliminated[0] <= prev_state.remaining[-1]
+                                    and implies(len(prev_state.remaining[-1]) > 1,
+                                                bool(self.election_states[-1].tiebreaks)
+                                                and self.election_states[-1].tiebreaks == {prev_state.remaining[-1]: tb_value(self.election_states[-1])}
+                                                and lin(tb_value(self.election_states[-1]), prev_state.remaining[-1])
+                                                and fp_sorted(tb_value(self.election_states[-1]), old_self._profile)
+                                                and self.election_states[-1].eliminated[0] == tb_value(self.election_states[-1])[-1])
+                                    and implies(len(prev_state.remaining[-1]) == 1, not self.election_states[-1].tiebreaks))))
+
+    def hint_return(self, prev_state):
+        return cat_elected_take(self.election_states, prev_state.round_number + 1, prev_state.round_number + 1)
